@@ -7,6 +7,9 @@
 (*                 (get_braille("")), n = its length in cells, pref/nav/sp *)
 (*                 = highlight preference, navigation id, speech           *)
 (*  k = "hl"     : get_braille(id); a = 1 iff id is an id of the expression*)
+(*                 (the id is named when the driver knows it: the highlight*)
+(*                 of one node under one style is one string, whatever was *)
+(*                 asked in between - in particular a routing query)       *)
 (*  k = "pos"    : get_braille_position -> (a, b), n = length of the       *)
 (*                 braille returned by get_braille(navigation id)          *)
 (*  k = "route"  : get_navigation_node_from_braille_position(a) -> id      *)
@@ -15,8 +18,8 @@
 (***************************************************************************)
 EXTENDS Naturals, Sequences, FiniteSets, TLC, Json, IOUtils
 Rec == ndJsonDeserialize(IOEnv.TRACE)
-VARIABLES l, ids, plain, len, pref, nav, sp
-tvars == <<l, ids, plain, len, pref, nav, sp>>
+VARIABLES l, ids, plain, len, pref, nav, sp, hl        \* hl: the <<id, braille>> pairs answered so far for this expression
+tvars == <<l, ids, plain, len, pref, nav, sp, hl>>
 ToSet(s) == {s[i] : i \in 1..Len(s)}
 Pure(e) == e.pref = pref /\ e.nav = nav
 Reason(e) ==
@@ -26,6 +29,7 @@ Reason(e) ==
   ELSE IF e.k = "hl" THEN
        (IF e.res # "ok" /\ e.a = 1 THEN "get_braille-failed-for-an-id-of-the-expression"
         ELSE IF e.res = "ok" /\ (e.style = "Off" \/ e.a = 0) /\ e.out # plain THEN "braille-differs-from-unhighlighted-braille"
+        ELSE IF e.res = "ok" /\ e.a = 1 /\ e.id # "" /\ (\E p \in hl : p[1] = e.id /\ p[2] # e.out) THEN "highlighted-braille-of-a-node-changed"
         ELSE "ok")
   ELSE IF e.k = "pos" THEN
        (IF e.res # "ok" THEN "get_braille_position-failed"
@@ -36,15 +40,17 @@ Reason(e) ==
   ELSE IF e.k = "end" THEN
        (IF e.out # plain THEN "later-braille-changed" ELSE IF e.sp # sp THEN "later-speech-changed" ELSE "ok")
   ELSE "ok"
-TInit == l = 1 /\ ids = {} /\ plain = "" /\ len = 0 /\ pref = "" /\ nav = "" /\ sp = ""
+TInit == l = 1 /\ ids = {} /\ plain = "" /\ len = 0 /\ pref = "" /\ nav = "" /\ sp = "" /\ hl = {}
 TNext == /\ l <= Len(Rec)
          /\ LET e == Rec[l] IN
               /\ (Reason(e) # "ok" => PrintT(<<"REJECT", l, Reason(e)>>))
               /\ IF e.k = "expr"
-                 THEN ids' = ToSet(e.ids) /\ plain' = e.out /\ len' = e.n /\ pref' = e.pref /\ nav' = e.nav /\ sp' = e.sp
+                 THEN ids' = ToSet(e.ids) /\ plain' = e.out /\ len' = e.n /\ pref' = e.pref /\ nav' = e.nav /\ sp' = e.sp /\ hl' = {}
                  ELSE IF e.k = "nav"          \* the driver moved the navigation position on purpose
-                 THEN nav' = e.nav /\ UNCHANGED <<ids, plain, len, pref, sp>>
-                 ELSE UNCHANGED <<ids, plain, len, pref, nav, sp>>
+                 THEN nav' = e.nav /\ UNCHANGED <<ids, plain, len, pref, sp, hl>>
+                 ELSE IF e.k = "hl" /\ e.res = "ok" /\ e.a = 1 /\ e.id # ""
+                 THEN hl' = hl \cup {<<e.id, e.out>>} /\ UNCHANGED <<ids, plain, len, pref, nav, sp>>
+                 ELSE UNCHANGED <<ids, plain, len, pref, nav, sp, hl>>
          /\ l' = l + 1
 TSpec == TInit /\ [][TNext]_tvars
 Consumed == PrintT(<<"CONSUMED", TLCGet("stats").diameter - 1>>)
